@@ -183,6 +183,9 @@ def run(ctx):
     ctx.extra['code_to_spec'] = {'streams': nv, 'events': sum(len(o['events']) for o in obs),
                                  'distinct_decoders_exercised': len(names_seen), 'registered_decoders': len(AUDIT)}
     ctx.sample({'random_stream': describe(*streams['s0'])[:8]})
+    # SCALE: windows as long as the size-like constants of the parser's sources suggest still come out whole
+    from .pairing import long_windows
+    long_windows(ctx, 'C04', report_lost=True, report_raised=True)
     ctx.assumptions += ['event identity = object identity of the Kevent fed (timestamps increasing, coarse with ties, or all equal)',
                         'stray ENDs inside a delivered window and swallowed continuation fragments are accepted either way',
                         'decoder classification from the frozen audit (harness/audit.json)']
